@@ -17,6 +17,9 @@ import traceback
 from . import core
 
 
+ENGINE_B = {'C08', 'C09', 'C10', 'C11', 'C13', 'C20'}
+
+
 def main(argv=None) -> int:
     ap = argparse.ArgumentParser()
     ap.add_argument('pid')
@@ -51,6 +54,10 @@ def main(argv=None) -> int:
 
     t0 = time.time()
     try:
+        if pid in ENGINE_B:
+            # the modelled primitives must agree with CPython's before anything explored with them is believed
+            from .sched import conformance
+            conformance.main()
         res: core.Result = mod.run(args.tier, seed, args.workers or core.ncpu())
     except core_internal_errors() as e:
         traceback.print_exc()
